@@ -151,6 +151,31 @@ func variadicIEs(c *ssa.Call) []ssa.Value {
 	return out
 }
 
+// argAtSite: a value of a reply closure that is one of the closure's parameters is, for the reply
+// reached through chain (the closure calls followed from the handler's return, outermost first), the
+// argument given at the call site the reply was reached by — followed outwards as long as that argument
+// is again a parameter of the closure the site is in. Other values are returned unchanged.
+func argAtSite(v ssa.Value, chain []*ssa.Call) ssa.Value {
+	for k := len(chain) - 1; k >= 0; k-- {
+		p, ok := v.(*ssa.Parameter)
+		if !ok || staticCallee(chain[k]) != p.Parent() {
+			break
+		}
+		// a closure call passes exactly the declared parameters (the captured variables are bindings)
+		at := -1
+		for i, fp := range p.Parent().Params {
+			if fp == p {
+				at = i
+			}
+		}
+		if at < 0 || at >= len(chain[k].Call.Args) {
+			break
+		}
+		v = chain[k].Call.Args[at]
+	}
+	return v
+}
+
 // causeOf finds the ie.NewCause(x) among the IEs of a response constructor call and returns
 // x's possible constant values; when x is a closure parameter the values at the closure's
 // call sites in chain are used.
@@ -161,19 +186,8 @@ func causeOf(c *ssa.Call, chain []*ssa.Call) (vals []int64, found bool) {
 			continue
 		}
 		found = true
-		arg := call.Call.Args[0]
-		if k, ok := constInt(arg); ok {
+		if k, ok := constInt(argAtSite(call.Call.Args[0], chain)); ok {
 			return []int64{k}, true
-		}
-		if p, ok := arg.(*ssa.Parameter); ok && len(chain) > 0 {
-			site := chain[len(chain)-1]
-			for i, fp := range p.Parent().Params {
-				if fp == p && i < len(site.Call.Args) {
-					if k, ok := constInt(site.Call.Args[i]); ok {
-						return []int64{k}, true
-					}
-				}
-			}
 		}
 		return nil, true
 	}
@@ -525,6 +539,9 @@ func ruleC02SEID(w *World, r *Report, handlers map[string]*ssa.Function, accepte
 				continue
 			}
 			n++
+			// a reply closure may leave the header SEID to its caller, as it may the cause: each reply is
+			// judged with the values of the call it was reached by
+			seid = argAtSite(seid, t.chain)
 			s := symOf(seid)
 			causes, found := causeOf(c, t.chain)
 			pos := w.Pos(c.Pos())
@@ -622,34 +639,35 @@ func ruleC02SEID(w *World, r *Report, handlers map[string]*ssa.Function, accepte
 			}
 			okv := extractOf(get, 1)
 			// the replies returned on the not-found edge: built by a reply closure called there, or in place
-			var ctors []*ssa.Call
+			// (the SEID a constructor is given is taken at the call the reply was reached by, see argAtSite)
+			var ctors []ssa.Value
 			var nfSite ssa.Instruction
-			var collect func(v ssa.Value, d int)
-			collect = func(v ssa.Value, d int) {
+			var collect func(v ssa.Value, chain []*ssa.Call, d int)
+			collect = func(v ssa.Value, chain []*ssa.Call, d int) {
 				if d > 5 || v == nil {
 					return
 				}
 				switch x := v.(type) {
 				case *ssa.Call:
-					if ctorArg(x, "seid") != nil {
-						ctors = append(ctors, x)
+					if seid := ctorArg(x, "seid"); seid != nil {
+						ctors = append(ctors, argAtSite(seid, chain))
 						return
 					}
 					if callee := staticCallee(x); callee != nil && w.isRepoFunc(callee) {
 						for _, ret := range returnsOf(callee) {
-							collect(res(ret, 0), d+1)
+							collect(res(ret, 0), append(append([]*ssa.Call{}, chain...), x), d+1)
 						}
 					}
 				case *ssa.Extract:
-					collect(x.Tuple, d+1)
+					collect(x.Tuple, chain, d+1)
 				case *ssa.Phi:
 					for _, e := range x.Edges {
-						collect(e, d+1)
+						collect(e, chain, d+1)
 					}
 				case *ssa.MakeInterface:
-					collect(x.X, d+1)
+					collect(x.X, chain, d+1)
 				case *ssa.ChangeInterface:
-					collect(x.X, d+1)
+					collect(x.X, chain, d+1)
 				}
 			}
 			for _, b := range h.Blocks {
@@ -664,7 +682,7 @@ func ruleC02SEID(w *World, r *Report, handlers map[string]*ssa.Function, accepte
 									if nfSite == nil {
 										nfSite = i
 									}
-									collect(res(ret, 0), 0)
+									collect(res(ret, 0), nil, 0)
 								}
 							}
 						}
@@ -677,8 +695,7 @@ func ruleC02SEID(w *World, r *Report, handlers map[string]*ssa.Function, accepte
 			}
 			zero := true
 			desc := ""
-			for _, c := range ctors {
-				seid := ctorArg(c, "seid")
+			for _, seid := range ctors {
 				if k, isK := constInt(seid); isK && k == 0 {
 					desc = "constant 0"
 					continue
